@@ -130,8 +130,8 @@ class Run:
 _counter = [0]
 
 
-def run(exe, args, stdin_data=None, stdin_path=None, env=None, timeout=120, workdir=None, stats=None,
-        out_name=None, keep=False, tag="r"):
+def run(exe, args, stdin_data=None, stdin_path=None, env=None, timeout=180, workdir=None, stats=None,
+        out_name=None, keep=False, tag="r", allow_timeout=False):
     """Run fastpasta. stats: 'json'|'toml' adds -S <file> -D <fmt>; out_name adds -o <file>.
     stdin_path feeds a file through a pipe (cat-like) so that the tool sees a pipe, not a file."""
     r = Run()
@@ -167,6 +167,10 @@ def run(exe, args, stdin_data=None, stdin_path=None, env=None, timeout=120, work
             r.timeout = True
             p.kill()
             out, err = p.communicate()
+            if not allow_timeout:
+                # a wall-clock watchdog is never a verdict: the case is undecided (C04 / C17 decide hangs with the /proc criterion)
+                from common import Inconclusive
+                raise Inconclusive("watchdog (%ds) fired for: %s" % (timeout, " ".join(str(a) for a in argv)[:300]))
         r.stdout = out
         r.stderr = err.decode("utf-8", "replace")
         if p.returncode is not None and p.returncode < 0:
